@@ -15,8 +15,10 @@ static EMBEDDED_CONFIG: &str = include_str!("../data/config.toml");
 /// Raw configuration as parsed from TOML (uses string keys).
 #[derive(Debug, Clone, Deserialize)]
 struct RawConfig {
+    // Ordered, so that a file spelling one year in several ways ("2024", "02024") resolves the
+    // same way in every run (the last key in string order wins, i.e. the canonical spelling).
     #[serde(default)]
-    exemptions: HashMap<String, Decimal>,
+    exemptions: std::collections::BTreeMap<String, Decimal>,
 }
 
 /// CGT tool configuration.
